@@ -29,6 +29,7 @@ from vlib import harness
 
 ID = "C20"
 LEVEL = "fault_enumeration"
+ENGINE = "platstub"
 TECHNIQUE = ("runtime monitoring of the real foreign platform layers over a stub native layer: record-layout "
              "oracle from the C builders + errno/winerror fault enumeration at every native call index with an "
              "error-translation-contract oracle")
